@@ -1,4 +1,4 @@
-import Cppcms.C14.LemmasU2U
+import Cppcms.C14.LemmasForm
 /-!
 # C14 — property theorems
 
@@ -462,6 +462,72 @@ theorem validate_or_filter_dispatch (name : List Nat) (s : Bytes) (repl : UInt8)
   · intro h; simp [validateOrFilter, h]
   · intro i h hg; simp [validateOrFilter, h, hg]
 
+/-! ## the text widget: `widgets::base_text::load` / `validate` (src/form.cpp) -/
+
+/-- After **any** history, `validate()` right after a `load` depends only on that load and on the
+widget's configuration: `Form.verdictOf` mentions neither the count, nor the value, nor the flags
+earlier requests left in the object.  (`st` is an arbitrary state.) -/
+theorem text_widget_validate_uses_count_of_loaded_value (st : Form.St) (rq : Form.Req)
+    (hr : Form.Resolves st.named st.validateCharset rq) :
+    (Form.validate (Form.load st rq)).1 =
+      Form.verdictOf st.low st.high st.named st.validateCharset rq :=
+  Form.validate_load st rq hr
+
+/-- the same over operation sequences: whatever was done to the widget before (loads, validates,
+limit changes, `value(v)`, `clear()`, renaming), from a fresh widget with any initial garbage in
+`code_points_` -/
+theorem text_widget_history_independent (cp0 : Nat) (ops : List Form.Op) (rq : Form.Req)
+    (hr : Form.Resolves (Form.run (Form.init cp0) ops).named (Form.run (Form.init cp0) ops).validateCharset rq) :
+    (Form.validate (Form.run (Form.init cp0) (ops ++ [.load rq]))).1 =
+      Form.verdictOf (Form.run (Form.init cp0) ops).low (Form.run (Form.init cp0) ops).high
+        (Form.run (Form.init cp0) ops).named (Form.run (Form.init cp0) ops).validateCharset rq := by
+  rw [Form.run_append_load]
+  exact Form.validate_load _ rq hr
+
+/-- what that verdict is for a named widget in a UTF-8 locale with charset validation on and sane
+limits: the field absent counts as 0 characters; a present field is accepted iff it is HTML-safe
+well-formed UTF-8 whose number of code points is within the limits -/
+theorem text_widget_utf8_verdict (st : Form.St) (enc : List Nat) (field : Option Bytes)
+    (hn : st.named = true) (hv : st.validateCharset = true) (he : getTester enc = some .utf8)
+    (hl : 0 ≤ st.low) (hl2 : st.low < 2147483648) (hh : st.high < 2147483648) :
+    (Form.validate (Form.load st ⟨enc, field⟩)).1 = true ↔
+      match field with
+      | none => withinLimits st.low st.high 0 = true
+      | some s => ∃ n, WellFormed true s n ∧ withinLimits st.low st.high n = true := by
+  have hres : Form.Resolves st.named st.validateCharset ⟨enc, field⟩ := by
+    intro _ _ v _ hx
+    unfold valid validWith at hx
+    rw [he] at hx
+    cases hx
+  rw [Form.validate_load st _ hres, hn, hv]
+  unfold Form.verdictOf Form.loadedCount
+  cases field with
+  | none =>
+    simp only [Bool.not_true, Bool.false_eq_true, if_false, Form.outOfLimits_eq 0 st.low st.high hl hl2 hh,
+      Bool.not_not]
+  | some s =>
+    simp only [Bool.not_true, Bool.false_eq_true, if_false, if_true]
+    cases hvv : valid enc s with
+    | external => unfold valid validWith at hvv; rw [he] at hvv; cases hvv
+    | ok ok n =>
+      cases ok with
+      | true =>
+        have hw := (valid_utf8_name enc s n he).1 hvv
+        simp only [Form.outOfLimits_eq n st.low st.high hl hl2 hh, Bool.not_not]
+        constructor
+        · intro h; exact ⟨n, hw, h⟩
+        · rintro ⟨m, hm, hlim⟩
+          have := (valid_utf8_name enc s m he).2 hm
+          rw [hvv] at this
+          cases this
+          exact hlim
+      | false =>
+        simp only [Bool.false_eq_true, false_iff]
+        rintro ⟨m, hm, _⟩
+        have := (valid_utf8_name enc s m he).2 hm
+        rw [hvv] at this
+        cases this
+
 /-! ## non-vacuity: instances meeting the hypotheses, and the classic malformed inputs -/
 
 example : Cms.next true [0xC3, 0xA9, 0x41] = (.cp 0xE9, [0x41]) := by decide
@@ -488,6 +554,14 @@ example : Boost.utf8ToUtf8 Gen.methodSkip [0xC3] = some [] := by decide
 example : Boost.utf8ToUtf8 Gen.methodSkip [0xE2, 0x41, 0x42] = some [0x42] := by decide         -- the byte that ended the bad sequence goes with it
 example : Boost.utf8ToCps Gen.methodStop [0x41, 0xE2, 0x82, 0xAC] = some [0x41, 0x20AC] := by decide
 example : Boost.utf32ToUtf8 Gen.methodSkip [0x41, 0xD800, 0x20AC, 0x110000] = some [0x41, 0xE2, 0x82, 0xAC] := by decide
+-- the scenario of the seeded change C14-9: 4 characters, then a request without the field; limits (2,5)
+example : (Form.validate (Form.run (Form.init 7)
+    [.name true, .limits 2 5, .load ⟨[117, 116, 102, 56], some [97, 98, 99, 100]⟩, .validate,
+     .load ⟨[117, 116, 102, 56], none⟩])).1 = false := by decide
+example : (Form.validate (Form.run (Form.init 7)
+    [.name true, .limits 2 5, .load ⟨[117, 116, 102, 56], some [0xE2, 0x82, 0xAC, 0xF0, 0x9F, 0x98, 0x80, 0x78]⟩])).1 = true := by decide
+example : Form.Resolves true true ⟨[117, 116, 102, 56], some [97]⟩ := by
+  intro _ _ v hv; cases hv; decide
 example : ReplOk 63 := Or.inr ⟨1, [(63, [63])], by decide, by decide, by decide⟩
 example : ReplOk 0 := Or.inl rfl
 example : filterUtf8 [0x41, 0xC3, 0xFF, 0x01, 0xC2, 0x80, 0x42] 63 = (false, some [0x41, 63, 63, 63, 63, 0x42]) := by decide
